@@ -20,6 +20,27 @@ FORESTS4 = [
 ]
 
 
+# probes for isTagEqual: (name, attribute list); detached elements built directly
+PROBES = [
+    ['div', [['id', 'a']]],
+    ['div', [['id', 'a']]],
+    ['div', [['id', 'b']]],
+    ['div', [['title', 'a']]],
+    ['div', [['checked', None]]],
+    ['div', [['disabled', None]]],
+    ['div', [['id', 'a'], ['checked', None]]],
+    ['div', [['checked', None], ['id', 'a']]],
+    ['div', []],
+    ['span', [['id', 'a']]],
+    ['div', [['id', 'a'], ['title', 't']]],
+    ['div', [['id', None]]],
+]
+
+
+def probe_elements(AHP):
+    return [AHP.AdvancedTag(n, [tuple(a) for a in attrs]) for n, attrs in PROBES]
+
+
 def tree_uids(t):
     yield t[0]
     for k in t[1:]:
@@ -80,6 +101,11 @@ def apply_op(U, c, op):
     raise ValueError(name)
 
 
+def tageq_matrix(AHP):
+    ps = probe_elements(AHP)
+    return [''.join('1' if p.isTagEqual(q) else '0' for q in ps) for p in ps]
+
+
 def observe(U, c):
     bits = lambda bs: ''.join('1' if b else '0' for b in bs)
     return ['ok',
@@ -108,6 +134,7 @@ class Check(PropCheck):
         for n in (1, 2, 3):
             operands.extend(itertools.product(uni, repeat=n))
         single = [[o] + list(xs) for o in OPS for xs in operands]
+        yield Case({'forest': FORESTS4[0], 'ops': [['tageq']]}, 'exhaustive')
         for f in FORESTS4:
             for op in single:
                 yield Case({'forest': f, 'ops': [['ctor', 0, 2], op]}, 'exhaustive')
@@ -157,7 +184,7 @@ class Check(PropCheck):
     def nontrivial(self, d):
         for op in d['ops']:
             xs = op[1:]
-            if len(set(xs)) < len(xs):
+            if op[0] == 'tageq' or len(set(xs)) < len(xs):
                 return True
         return len(d['ops']) > 1 and any(len(op) > 1 for op in d['ops'][1:])
 
@@ -181,13 +208,23 @@ class Check(PropCheck):
 
     # ---- both sides --------------------------------------------------------------------------
     def encode(self, d):
-        return sx(d['forest'], d['ops'])
+        from ..core import enc, opt
+        ops = []
+        for op in d['ops']:
+            if op[0] == 'tageq':
+                ops.append(['tageq'] + [[enc(n)] + [[enc(k), opt(v)] for k, v in attrs] for n, attrs in PROBES])
+            else:
+                ops.append(op)
+        return sx(d['forest'], ops)
 
     def impl(self, d):
         U = Universe(d['forest'])
         c = U.AHP.Tags.TagCollection()
         out = []
         for op in d['ops']:
+            if op[0] == 'tageq':
+                out.append(tageq_matrix(U.AHP))
+                continue
             try:
                 c = apply_op(U, c, op)
             except (ValueError, KeyError):
@@ -214,6 +251,16 @@ class Check(PropCheck):
             self_and_desc(t)
         for n, op in enumerate(d['ops']):
             name, xs = op[0], op[1:]
+            if name == 'tageq':
+                got = tageq_matrix(U.AHP)
+                for i, (n1, a1) in enumerate(PROBES):
+                    for j, (n2, a2) in enumerate(PROBES):
+                        # name and attributes only: same name, same set of attribute names, same value for each
+                        want = n1 == n2 and sorted(map(tuple, a1), key=lambda p: p[0]) == sorted(map(tuple, a2), key=lambda p: p[0])
+                        if (got[i][j] == '1') != want:
+                            return ('isTagEqual', 'probe %d %r vs probe %d %r: isTagEqual %s, expected %s'
+                                    % (i, PROBES[i], j, PROBES[j], got[i][j] == '1', want))
+                continue
             try:
                 c = apply_op(U, c, op)
             except Exception as e:
@@ -278,6 +325,10 @@ class Check(PropCheck):
                 return ('identity', '%s/%s: == is %r but uids %s' % (ka, kb, a == b, 'equal' if same else 'differ'))
             if same and hash(a) != hash(b):
                 return ('hash', '%s/%s equal but hash differently' % (ka, kb))
+            if not same and hash(a) == hash(b):
+                # "hash alike exactly when they are the same element": a hash that ignores the uid (name, attributes)
+                # collides for every look-alike; a 64-bit uid hash colliding here is not a realistic event
+                return ('hash', '%s/%s are different elements (<%s>/<%s>) but hash alike' % (ka, kb, a.tagName, b.tagName))
             if a.isEqualNode(b) != same:
                 return ('identity', 'isEqualNode disagrees with ==')
             te = (a.tagName == b.tagName and dict(a.getAttributesList()) == dict(b.getAttributesList()))
